@@ -7,6 +7,8 @@ import (
 	"strings"
 
 	ucfg "github.com/elastic/go-ucfg"
+	"github.com/elastic/go-ucfg/cfgutil"
+	ucfgflag "github.com/elastic/go-ucfg/flag"
 
 	"verif/internal/gen"
 	"verif/internal/harness"
@@ -27,7 +29,7 @@ func (check) Cases(tier string) int {
 }
 
 func (check) Rule() string {
-	return "a source config (root, child or grand-child handle; half of them with ${...} references to their own root, a third with references to whole objects/lists of their own tree; half of them with a prior history of Remove/Set/drain-a-container/grow-and-shrink operations, so that emptied objects and lists, detached spellings and re-set values occur) is merged into a destination (empty or a mutation of the source tree, half of these with references to their own objects at keys the source also defines, a third with a prior history) directly, or embedded in a map, a nested map, a slice (twice), a struct field of type *Config or Config, under one of 5 policies; the non-evaluating fingerprint of the source's whole root tree (node addresses, stored field names, parent links, values, unresolved expressions) and its public reads (Path, Parent, Unpack with its own references) are compared before/after; node address sets of source and destination must be disjoint; then (2 of 3 cases) every container of one or both sides receives a probe write (new key / appended element) and then a history of 1-12 Set*/Remove/Merge/SetChild operations (addresses from a fixed pool and from the trees as they are now; up to 2 of the merges take the OTHER side, directly or embedded, as their source) is applied to one side while the other side's fingerprint and unpack must stay constant and the address sets stay disjoint after every step. Non-trivial = source has >= 3 nodes and the history performed >= 1 successful mutation; distinct = distinct (source, placement, policy, history)."
+	return "a source config (root, child or grand-child handle; half of them with ${...} references to their own root, a third with references to whole objects/lists of their own tree; half of them with a prior history of Remove/Set/drain-a-container/grow-and-shrink operations, so that emptied objects and lists, detached spellings and re-set values occur) is merged into a destination (empty or a mutation of the source tree, half of these with references to their own objects at keys the source also defines, a third with a prior history) directly, or embedded in a map, a nested map, a slice (twice), a struct field of type *Config or Config, under one of 5 policies, through Config.Merge or (1 of 4 cases) through a cfgutil.Collector (started with nil, an empty or a filled config) that 0-3 further *Config sources are added to before/after the source, each of them held to the same invariants; a fifth of the source roots and the destinations they meet are list-shaped (top-level lists, generated, with ${0}-style references to their own entries), a tenth of all destinations are lists; the non-evaluating fingerprint of the source's whole root tree (node addresses, stored field names, parent links, values, unresolved expressions) and its public reads (Path, Parent, Unpack with its own references) are compared before/after; node address sets of source and destination must be disjoint and no parent link of a destination node may name a config of a source; then (2 of 3 cases) every container of one or both sides receives a probe write (new key / appended element) and then a history of 1-12 Set*/Remove/Merge/SetChild operations (also through flag.NewFlagKeyValue(side).Set and Collector.Add; addresses from a fixed pool and from the trees as they are now; up to 2 of the merges take the OTHER side, directly or embedded, as their source) is applied to one side while the other side's fingerprint and unpack must stay constant and the address sets stay disjoint after every step. Non-trivial = source has >= 3 nodes and the history performed >= 1 successful mutation; distinct = distinct (source, placement, policy, history)."
 }
 
 func (check) Assumptions() []string {
@@ -238,7 +240,7 @@ func hasObjRef(n *model.Node) bool {
 		return false
 	}
 	if s, ok := n.Prim.(string); ok && n.Kind == model.KPrim && strings.Contains(s, "${") {
-		for _, p := range plainRefs {
+		for _, p := range append(plainRefs[:len(plainRefs):len(plainRefs)], listRefs...) {
 			if s == p {
 				return false
 			}
@@ -328,7 +330,12 @@ func readAll(c *ucfg.Config) reads {
 }
 
 // withRefs sprinkles references to the tree's own root into string leaves.
-func withRefs(r *rand.Rand, n *model.Node) {
+func withRefs(r *rand.Rand, n *model.Node) { withRefsOf(r, n, plainRefs) }
+
+// listRefs: the plain references of a list-shaped root ([v0, {z: vz}, ...]).
+var listRefs = []string{"${0}", "p-${0}", "${1.z}", "${0}${1.z}", "${missing:dflt}"}
+
+func withRefsOf(r *rand.Rand, n *model.Node, pool []string) {
 	if !n.IsSub() {
 		return
 	}
@@ -336,19 +343,37 @@ func withRefs(r *rand.Rand, n *model.Node) {
 		v := n.D[k]
 		if v.Kind == model.KPrim {
 			if _, ok := v.Prim.(string); ok && r.Intn(2) == 0 {
-				v.Prim = []string{"${x}", "p-${x}", "${y.z}", "${x}${y.z}", "${missing:dflt}"}[r.Intn(5)]
+				v.Prim = pool[r.Intn(len(pool))]
 			}
 		}
-		withRefs(r, v)
+		withRefsOf(r, v, pool)
 	}
 	for _, v := range n.A {
 		if v.Kind == model.KPrim {
 			if _, ok := v.Prim.(string); ok && r.Intn(3) == 0 {
-				v.Prim = "${x}"
+				v.Prim = pool[0]
 			}
 		}
-		withRefs(r, v)
+		withRefsOf(r, v, pool)
 	}
+}
+
+// listTop generates a list-shaped top level: entry 0 and entry 1.z are plain
+// values (what the references of the other entries point to), followed by
+// 0-3 arbitrary entries.
+func listTop(r *rand.Rand, first string, refs bool) *model.Node {
+	l := model.List(model.P(first), model.Dict().Set("z", model.P("vz")))
+	for i, k := 0, r.Intn(4); i < k; i++ {
+		e := gen.Tree(r, treeOpts, 2)
+		if refs {
+			if _, ok := e.Prim.(string); ok && e.Kind == model.KPrim && r.Intn(2) == 0 {
+				e.Prim = listRefs[r.Intn(len(listRefs))]
+			}
+			withRefsOf(r, e, listRefs)
+		}
+		l.A = append(l.A, e)
+	}
+	return l
 }
 
 type embC struct {
@@ -374,16 +399,25 @@ func (check) Run(seed int64, tier string, idx int, verbose bool) harness.Result 
 		// --- build the source ---
 		st := gen.TopDict(r, treeOpts, 3)
 		refs := r.Intn(2) == 0
-		if refs {
-			withRefs(r, st)
-		}
-		// the referenced settings themselves are plain values (no setting is
-		// reached twice in one evaluation: that is C08/C09 territory)
-		st.Set("x", model.P("vx"))
-		st.Set("y", model.Dict().Set("z", model.P("vz")))
-		if r.Intn(3) == 0 {
-			// settings that are references to whole objects/lists of the same tree
-			res.Ev("source_object_references", int64(withObjRefs(r, st, "")))
+		listRoot := r.Intn(5) == 0
+		protect := map[string]bool{"x": true, "y": true, "y.z": true}
+		if listRoot {
+			// the source's root is a list; its references name entries by index
+			st = listTop(r, "v0", refs)
+			protect = map[string]bool{"0": true, "1": true, "1.z": true}
+			res.Ev("list_shaped_source_roots", 1)
+		} else {
+			if refs {
+				withRefs(r, st)
+			}
+			// the referenced settings themselves are plain values (no setting is
+			// reached twice in one evaluation: that is C08/C09 territory)
+			st.Set("x", model.P("vx"))
+			st.Set("y", model.Dict().Set("z", model.P("vz")))
+			if r.Intn(3) == 0 {
+				// settings that are references to whole objects/lists of the same tree
+				res.Ev("source_object_references", int64(withObjRefs(r, st, "")))
+			}
 		}
 		srcRoot, err := ucfg.NewFrom(st.ToGo(), rdOpts...)
 		res.Eval(1)
@@ -395,13 +429,16 @@ func (check) Run(seed int64, tier string, idx int, verbose bool) harness.Result 
 		var srcDrained []string
 		if r.Intn(2) == 0 {
 			var n int
-			n, srcDrained = prehistory(r, srcRoot, map[string]bool{"x": true, "y": true, "y.z": true}, "srcRoot", &log)
+			n, srcDrained = prehistory(r, srcRoot, protect, "srcRoot", &log)
 			res.Ev("source_prehistory_ops", int64(n))
 			res.Eval(n)
 		}
 		// the handle that is merged: the root, a child or a grand-child (as
 		// the tree is now: emptied containers are handles like any other)
 		src, srcKind, srcPath := srcRoot, "root", ""
+		if listRoot {
+			srcKind = "root-list"
+		}
 		for depth := 0; depth < 2 && r.Intn(2) == 0; depth++ {
 			var cand []ucfg.VerifNode
 			for _, n := range ucfg.VerifWalk(src)[1:] {
@@ -413,8 +450,8 @@ func (check) Run(seed int64, tier string, idx int, verbose bool) harness.Result 
 				break
 			}
 			k := cand[r.Intn(len(cand))]
-			ch, err := src.Child(k.Walk, -1)
-			if err != nil {
+			ch, err := src.Child(k.Walk, -1, sepOpt)
+			if err != nil || ch == nil {
 				break
 			}
 			src, srcPath = ch, join(srcPath, k.Walk)
@@ -430,18 +467,39 @@ func (check) Run(seed int64, tier string, idx int, verbose bool) harness.Result 
 
 		// --- destination ---
 		var dst *ucfg.Config
-		if srcIsList && r.Intn(2) == 0 {
-			// a list source meets a list destination (top-level lists are merged in place)
-			dl := model.List(model.P("d0"), model.Dict().Set("a", model.P("d1")))
+		dstKind := "dict"
+		if (srcIsList && r.Intn(3) > 0) || r.Intn(10) == 0 {
+			// a list-shaped destination (top-level lists are merged in place):
+			// empty, the fixed two entries, or generated with references to
+			// its own entries
+			var dl *model.Node
+			switch r.Intn(4) {
+			case 0:
+				dl = model.List()
+			case 1:
+				dl = model.List(model.P("d0"), model.Dict().Set("a", model.P("d1")))
+			default:
+				dl = listTop(r, "d0", r.Intn(2) == 0)
+				if r.Intn(3) == 0 {
+					dl.A = dl.A[:1]
+				}
+			}
 			dst, err = ucfg.NewFrom(dl.ToGo(), rdOpts...)
 			if err != nil {
 				fail("newfrom-error", "NewFrom(%s): %v", dl, err)
 				return
 			}
 			log = append(log, fmt.Sprintf("dst=%s", dl))
+			dstKind = "list"
+			if r.Intn(4) == 0 {
+				n, _ := prehistory(r, dst, map[string]bool{"0": true, "1": true, "1.z": true}, "dst", &log)
+				res.Ev("destination_prehistory_ops", int64(n))
+				res.Eval(n)
+			}
 		} else if r.Intn(2) == 0 {
 			dst = ucfg.New()
 			log = append(log, "dst=empty")
+			dstKind = "empty"
 		} else {
 			dt := gen.MutateTop(r, treeOpts, st, 3)
 			for !dt.IsSub() || dt.HasA {
@@ -473,6 +531,54 @@ func (check) Run(seed int64, tier string, idx int, verbose bool) harness.Result 
 			}
 		}
 
+		pols := []struct {
+			n string
+			o ucfg.Option
+		}{{"default", nil}, {"replace", ucfg.ReplaceValues}, {"arr-replace", ucfg.ReplaceArrValues}, {"append", ucfg.AppendValues}, {"prepend", ucfg.PrependValues}}
+		pol := pols[r.Intn(len(pols))]
+		mo := []ucfg.Option{ucfg.PathSep(".")}
+		if pol.o != nil {
+			mo = append(mo, pol.o)
+		}
+		res.SetAdd("policy", pol.n)
+
+		// --- entry point: Config.Merge, or a cfgutil.Collector that the source
+		// (and further sources before/after it) is added to ---
+		var col *cfgutil.Collector
+		var extras []*ucfg.Config // the further sources: nothing ever writes to them
+		preExtras := 0
+		if r.Intn(4) == 0 {
+			if dstKind == "empty" && r.Intn(2) == 0 {
+				col = cfgutil.NewCollector(nil, mo...)
+				dstKind = "collector-made"
+			} else {
+				col = cfgutil.NewCollector(dst, mo...)
+			}
+			dst = col.Config()
+			nx := r.Intn(4)
+			for i := 0; i < nx; i++ {
+				var xt *model.Node
+				switch {
+				case srcIsList || dstKind == "list":
+					xt = listTop(r, fmt.Sprintf("e%d", i), r.Intn(2) == 0)
+				case r.Intn(2) == 0 && !listRoot:
+					xt = gen.MutateTop(r, treeOpts, st, 3)
+				default:
+					xt = gen.TopDict(r, treeOpts, 3)
+				}
+				x, err := ucfg.NewFrom(xt.ToGo(), rdOpts...)
+				if err != nil {
+					fail("newfrom-error", "NewFrom(%s): %v", xt, err)
+					return
+				}
+				log = append(log, fmt.Sprintf("extra%d=%s", i, xt))
+				extras = append(extras, x)
+			}
+			preExtras = r.Intn(len(extras) + 1)
+			res.SetAdd("collector_sequence", fmt.Sprintf("start=%s pre=%d post=%d", dstKind, preExtras, len(extras)-preExtras))
+		}
+		res.SetAdd("destination_kind", dstKind)
+
 		// child handles of the destination taken before the merge: whatever
 		// becomes of them (still part of the destination or detached), they
 		// never belong to the source
@@ -491,7 +597,7 @@ func (check) Run(seed int64, tier string, idx int, verbose bool) harness.Result 
 		// --- placement ---
 		var from interface{}
 		placement := []string{"direct", "map", "nested-map", "slice-twice", "struct-ptr", "struct-value", "map-twice", "map-second-spelling", "struct-second-spelling"}[r.Intn(9)]
-		if (srcIsList && r.Intn(2) == 0) || r.Intn(5) == 0 {
+		if (srcIsList && r.Intn(2) == 0) || r.Intn(5) == 0 || col != nil {
 			placement = "direct"
 		}
 		prefix := "emb"
@@ -518,18 +624,11 @@ func (check) Run(seed int64, tier string, idx int, verbose bool) harness.Result 
 			from = embSecond{E: src, Z: "second"}
 		}
 		embedded := placement != "direct"
-		res.SetAdd("placement", placement)
-		pols := []struct {
-			n string
-			o ucfg.Option
-		}{{"default", nil}, {"replace", ucfg.ReplaceValues}, {"arr-replace", ucfg.ReplaceArrValues}, {"append", ucfg.AppendValues}, {"prepend", ucfg.PrependValues}}
-		pol := pols[r.Intn(len(pols))]
-		mo := []ucfg.Option{ucfg.PathSep(".")}
-		if pol.o != nil {
-			mo = append(mo, pol.o)
+		if col != nil {
+			res.SetAdd("placement", "collector-add")
+		} else {
+			res.SetAdd("placement", placement)
 		}
-		res.SetAdd("policy", pol.n)
-
 		// --- before / merge / after ---
 		fBefore := fingerprintOf(srcRoot)
 		fpBefore := fBefore.text
@@ -566,12 +665,48 @@ func (check) Run(seed int64, tier string, idx int, verbose bool) harness.Result 
 				res.Ev("cases_source_holds_emptied_container_at_merge", 1)
 			}
 		}
-		err = dst.Merge(from, mo...)
-		res.Eval(1)
-		log = append(log, fmt.Sprintf("dst.Merge(%s, %s)", placement, pol.n))
-		if err != nil {
-			fail("merge-error", "Merge returned %v", err)
-			return
+		if col == nil {
+			err = dst.Merge(from, mo...)
+			res.Eval(1)
+			log = append(log, fmt.Sprintf("dst.Merge(%s, %s)", placement, pol.n))
+			if err != nil {
+				fail("merge-error", "Merge returned %v", err)
+				return
+			}
+		} else {
+			// every config handed to the collector is the source of a merge
+			seq := append(append(append([]*ucfg.Config{}, extras[:preExtras]...), src), extras[preExtras:]...)
+			roots := append(append(append([]*ucfg.Config{}, extras[:preExtras]...), srcRoot), extras[preExtras:]...)
+			before := make([]fp, len(roots))
+			for i, c := range roots {
+				before[i] = fingerprintOf(c)
+			}
+			for i, c := range seq {
+				err = col.Add(c, nil)
+				res.Eval(1)
+				log = append(log, fmt.Sprintf("collector.Add(#%d, %s)", i, pol.n))
+				if err != nil {
+					fail("merge-error", "Collector.Add returned %v", err)
+					return
+				}
+				res.Ev("collector_adds", 1)
+				for j, c := range roots {
+					if after := fingerprintOf(c); after.text != before[j].text {
+						sig := "source-modified-by-merge"
+						if j != i {
+							sig = "source-modified-by-later-add-to-collector"
+							if j > i {
+								sig = "source-modified-before-it-was-added-to-collector"
+							}
+						}
+						fail(sig+":collector"+gained(before[j], after), "after Add #%d the config #%d handed to the collector changed: %q vs %q", i, j, firstDiff(before[j].text, after.text), firstDiff(after.text, before[j].text))
+						return
+					}
+				}
+			}
+			if col.Config() != dst {
+				dst = col.Config()
+			}
 		}
 		fAfter := fingerprintOf(srcRoot)
 		fpAfter := fAfter.text
@@ -595,6 +730,39 @@ func (check) Run(seed int64, tier string, idx int, verbose bool) harness.Result 
 		// disjoint reports (and classifies) a node shared by both sides
 		disjoint := func(when string) bool {
 			fd, fs := fingerprintOf(dst), fingerprintOf(srcRoot)
+			sfx := ""
+			if when != "" {
+				sfx = ":" + when
+			}
+			// the parent link of every node of the destination stays inside
+			// the destination (never names a config of a source)
+			for _, n := range fd.walk {
+				if n.Parent > 1 {
+					if sw, ok := fs.addrs[n.Parent]; ok {
+						fail("destination-node-parented-in-source"+sfx, "destination node %q has the source's node %q (%#x) as its parent", n.Walk, sw, n.Parent)
+						return false
+					}
+				}
+			}
+			for i, x := range extras {
+				fx := fingerprintOf(x)
+				if dw, xw, a, found := aliased(fd, fx); found {
+					sig := "aliasing:collector-source"
+					if dw == "(fields)" {
+						sig += ":root-fields-table"
+					}
+					fail(sig+sfx, "destination node %q and node %q of extra source %d are the same object (%#x)", dw, xw, i, a)
+					return false
+				}
+				for _, n := range fd.walk {
+					if n.Parent > 1 {
+						if xw, ok := fx.addrs[n.Parent]; ok {
+							fail("destination-node-parented-in-source:collector-source"+sfx, "destination node %q has node %q (%#x) of extra source %d as its parent", n.Walk, xw, n.Parent, i)
+							return false
+						}
+					}
+				}
+			}
 			dw, sw, a, found := aliased(fd, fs)
 			if !found {
 				for i, h := range dstHandles {
@@ -621,6 +789,9 @@ func (check) Run(seed int64, tier string, idx int, verbose bool) harness.Result 
 			if !embedded && !strings.HasSuffix(strings.TrimSuffix(dw, "(fields)"), rel) {
 				sig = "aliasing:shared-node-at-another-path-than-in-source"
 			}
+			if dw == "(fields)" {
+				sig = "aliasing:root-fields-table"
+			}
 			if when != "" {
 				sig += ":" + when
 			}
@@ -635,17 +806,28 @@ func (check) Run(seed int64, tier string, idx int, verbose bool) harness.Result 
 		// unpackOf: evaluated contents (own references included)
 		unpackOf := func(c *ucfg.Config) string {
 			var m map[string]interface{}
+			var a []interface{}
 			e := c.Unpack(&m, rdOpts...)
 			if e != nil {
 				m = nil
 			}
-			return fmt.Sprintf("%s|%v", model.CanonIfc(m), e != nil)
+			// list-shaped configs show their contents (and what the
+			// references in their entries yield) as a slice only
+			e2 := c.Unpack(&a, rdOpts...)
+			if e2 != nil {
+				a = nil
+			}
+			return fmt.Sprintf("%s|%v|%s|%v", model.CanonIfc(m), e != nil, model.CanonIfc(a), e2 != nil)
 		}
 		// step runs one operation on one side; the other side must not move.
 		// target is the address written to ("" if the operation has none).
 		step := func(sname, what, target string, sideC, other *ucfg.Config, sig string, op func() error) (ok, cont bool) {
 			fpO := fingerprintOf(other)
 			rdO := unpackOf(other)
+			xBefore := make([]fp, len(extras))
+			for i, x := range extras {
+				xBefore[i] = fingerprintOf(x)
+			}
 			var hBefore []fp
 			if sideC == src {
 				// a write to the source is invisible through the handles too
@@ -668,6 +850,12 @@ func (check) Run(seed int64, tier string, idx int, verbose bool) harness.Result 
 			if rd2 := unpackOf(other); rd2 != rdO {
 				fail(sig, "after %s on %s the other side unpacks differently: %s vs %s", what, sname, rdO, rd2)
 				return err == nil, false
+			}
+			for i, b := range xBefore {
+				if a := fingerprintOf(extras[i]); a.text != b.text {
+					fail(sig+":collector-source-moved"+gained(b, a), "after %s on %s extra source %d of the collector changed: %q vs %q", what, sname, i, firstDiff(b.text, a.text), firstDiff(a.text, b.text))
+					return err == nil, false
+				}
 			}
 			for i, b := range hBefore {
 				if a := fingerprintOf(dstHandles[i]); a.text != b.text {
@@ -759,7 +947,21 @@ func (check) Run(seed int64, tier string, idx int, verbose bool) harness.Result 
 			}
 			res.SetAdd("history_address_kind", nameKind)
 			var ok, cont bool
-			switch op := r.Intn(6); {
+			switch op := r.Intn(7); {
+			case op == 6:
+				// a later write through the flag entry point (-D name=value)
+				arg := name + []string{"=fw", "=3", "=true", "", "=-2.5"}[r.Intn(5)]
+				autoBool := r.Intn(2) == 0
+				ok, cont = step(sname, "FlagKeyValue.Set", name, side, other, visible, func() error {
+					fv := ucfgflag.NewFlagKeyValue(side, autoBool, mo...)
+					if e := fv.Set(arg); e != nil {
+						return e
+					}
+					return fv.Error()
+				})
+				if ok {
+					res.Ev("later_writes_through_flag_value", 1)
+				}
 			case op == 0:
 				ok, cont = step(sname, "SetString", name, side, other, visible, func() error {
 					return side.SetString(name, -1, fmt.Sprintf("w%d", i), sepOpt)
@@ -785,10 +987,18 @@ func (check) Run(seed int64, tier string, idx int, verbose bool) harness.Result 
 				crossMerges++
 				var f interface{} = otherHandle
 				how := "Merge(other side)"
-				if r.Intn(2) == 0 {
+				switch r.Intn(3) {
+				case 0:
 					f, how = map[string]interface{}{"emb": otherHandle}, "Merge({emb: other side})"
+				case 1:
+					how = "Collector.Add(other side)"
 				}
-				ok, cont = step(sname, how, "", side, other, "source-modified-by-later-merge", func() error { return side.Merge(f, mo...) })
+				ok, cont = step(sname, how, "", side, other, "source-modified-by-later-merge", func() error {
+					if how == "Collector.Add(other side)" {
+						return cfgutil.NewCollector(side, mo...).Add(otherHandle, nil)
+					}
+					return side.Merge(f, mo...)
+				})
 				if ok {
 					res.Ev("later_merges_from_other_side", 1)
 				}
